@@ -37,7 +37,7 @@ def match_known(prop, finding, known):
         if m.get("class") != finding["class"]:
             continue
         d = finding.get("detail") or {}
-        if all(d.get(kk) == vv for kk, vv in (m.get("where") or {}).items()):
+        if all((d.get(kk) in vv) if isinstance(vv, list) else (d.get(kk) == vv) for kk, vv in (m.get("where") or {}).items()):
             return k
     return None
 
@@ -212,11 +212,14 @@ def main(mod):
         seen_classes = collections.Counter()
         if violations:
             brief = collections.Counter()
+            example = {}
             for c, f in violations:
                 d = f.get("detail") or {}
-                brief[(f["class"],) + tuple(str(d.get(k)) for k in getattr(mod, "BRIEF_KEYS", ()))] += 1
+                key = (f["class"],) + tuple(str(d.get(k)) for k in getattr(mod, "BRIEF_KEYS", ()))
+                brief[key] += 1
+                example.setdefault(key, c["id"])
             for k, v in sorted(brief.items()):
-                print("violations: %4d x %s" % (v, " ".join(k)))
+                print("violations: %4d x %s (e.g. %s)" % (v, " ".join(k), example[k]))
         for c, f in violations:
             seen_classes[f["class"]] += 1
             if seen_classes[f["class"]] > 2:  # at most two replay files per class and run
